@@ -5,6 +5,7 @@
 //!   harness merge-hashes FILE...      (prints the size of the union of u64 hash files)
 
 mod bridge;
+mod cred;
 mod ctx;
 mod gen;
 mod json;
@@ -99,6 +100,7 @@ fn main() {
                 let stream = it.next().expect("stream:case").to_string();
                 c.only = Some((stream, case));
                 c.verbose = true;
+                sim::FULL_TRACE.store(true, std::sync::atomic::Ordering::Relaxed);
             }
             if let Some(dir) = &out {
                 let _ = std::fs::create_dir_all(dir);
